@@ -61,6 +61,29 @@ func errCode(err error) int64 {
 	return -1
 }
 
+// gatedSF decorates the ResourceManager's SingleFlight: the caller parks at gate "pre"
+// (GetResource invoked, about to enter singleflight) before delegating.
+type gatedSF struct {
+	inner syncx.SingleFlight
+	ctl   *sched.Ctl
+}
+
+func (g *gatedSF) pre() {
+	if a := g.ctl.Actor(); a >= 0 {
+		g.ctl.Gate(a, "pre", g.ctl.CurOp(a))
+	}
+}
+
+func (g *gatedSF) Do(key string, fn func() (any, error)) (any, error) {
+	g.pre()
+	return g.inner.Do(key, fn)
+}
+
+func (g *gatedSF) DoEx(key string, fn func() (any, error)) (any, bool, error) {
+	g.pre()
+	return g.inner.DoEx(key, fn)
+}
+
 type res struct{ id int64 }
 
 func (r *res) Close() error { return nil }
@@ -73,6 +96,7 @@ func runCase(c Case) (out Out) {
 	sf := syncx.NewSingleFlight()
 	lc := syncx.NewLockedCalls()
 	rm := syncx.NewResourceManager()
+	rm.VerifWrapFlight(func(inner syncx.SingleFlight) syncx.SingleFlight { return &gatedSF{inner: inner, ctl: ctl} })
 
 	// direct monitor (free mode): per (kind-group, key) in-flight gauge
 	var gmu sync.Mutex
